@@ -22,7 +22,8 @@ import (
 //   - in the ways pass every emission is controlled by the fact "the way's ID is not in the skippable set"
 //     (comma-ok lookup in the context field of type map[osm.WayID]struct{}, directly, through a boolean local or
 //     through a lookup helper; whatever the branch shape);
-//   - the relation pass is complete before the ways pass starts and Convert writes the skippable set only there.
+//   - the relation pass is complete before the ways pass starts and Convert writes the skippable set only there;
+//   - every value emitted is known not to be nil where it is emitted (c17_g5_nonnil.go).
 // The loops may live in Convert or in helpers, bodies may be extracted, `if`/`switch`/if-init forms are equivalent.
 
 const c17FCPath = "github.com/paulmach/orb/geojson.FeatureCollection"
@@ -66,6 +67,7 @@ type c17G5An struct {
 	wBusy    map[*c17Fn]bool
 	passes   map[string]*c17Pass
 	visits   map[*c17Fn]int
+	closures map[*ast.FuncLit]*c17Fn // local closures bound once to a variable, as functions of their own
 	nbad     int
 }
 
@@ -88,6 +90,9 @@ func (an *c17G5An) sitesOf(fn *c17Fn) []c17Site {
 	walk = func(n ast.Node) bool {
 		switch x := n.(type) {
 		case *ast.FuncLit:
+			if an.closureOf(fn, x) != nil {
+				return false // a local closure bound once to a variable: analysed as a function of its own at its calls
+			}
 			litDepth++
 			ast.Inspect(x.Body, walk)
 			litDepth--
@@ -142,6 +147,12 @@ func (an *c17G5An) sitesOf(fn *c17Fn) []c17Site {
 				}
 				out = append(out, c17Site{fn: fn, node: x, weight: w, inLit: litDepth > 0})
 				return true
+			}
+			if id, isID := ast.Unparen(x.Fun).(*ast.Ident); isID && litDepth == 0 {
+				if h := an.closureVar(fn, objOf(info, id)); h != nil {
+					out = append(out, c17Site{fn: fn, node: x, callee: h, call: x})
+					return true
+				}
 			}
 			f := callee(info, x)
 			if f == nil {
@@ -199,6 +210,8 @@ func (fn *c17Fn) loopsAround(n ast.Node) []ast.Node {
 		switch p.(type) {
 		case *ast.RangeStmt, *ast.ForStmt:
 			out = append([]ast.Node{p}, out...)
+		case *ast.FuncLit:
+			return out // the loops around a function literal are not loops of its body
 		}
 	}
 	return out
@@ -361,6 +374,7 @@ func c17G5(r *core.R) {
 		}
 	}
 	an.checkOrder(conv)
+	an.checkNonNil()
 }
 
 // visit walks the pass structure: fn runs outside any element pass.
